@@ -83,7 +83,13 @@ def dialect_agreement(ctx: Ctx) -> None:
             for lp in walk_local(src.node):
                 if isinstance(lp, ast.For) and any(x is y for b in lp.body for x in ast.walk(b)):
                     loop = lp
-            key = f'reader-source[{i}]:{norm(loop.iter)[:60] if loop is not None else norm(y)[:40]}'
+            # what is iterated, by role: a file opened in this function (with ... as <name>), or the parameter handed in
+            what_iter = norm(loop.iter)[:60] if loop is not None else norm(y)[:40]
+            if loop is not None and isinstance(loop.iter, ast.Name):
+                opened = {it.optional_vars.id for wth in ast.walk(src.node) if isinstance(wth, ast.With) for it in wth.items if isinstance(it.optional_vars, ast.Name)}
+                if loop.iter.id in opened:
+                    what_iter = 'opened-file'
+            key = f'reader-source[{i}]:{what_iter}'
             if loop is not None and isinstance(loop.iter, ast.Call) and call_name(loop.iter) == 'csv.reader':
                 c = loop.iter
                 good = norm(kwarg(c, 'delimiter')) == 'delimiter' and norm(kwarg(c, 'quotechar')) == 'quote_char'
